@@ -37,6 +37,21 @@ class IntBox(Box[int]):
 	def size(self) -> int:
 		return 1
 
+K_Pair = TypeVar('K_Pair')
+V_Pair = TypeVar('V_Pair')
+
+class Pair(Generic[K_Pair, V_Pair]):
+	key: K_Pair
+	value: V_Pair
+
+	def __init__(self, key: K_Pair, value: V_Pair) -> None:
+		self.key = key
+		self.value = value
+
+class Named(Pair[str, int]):
+	def label(self) -> str:
+		return self.key
+
 class Item:
 	n: int
 
@@ -52,11 +67,17 @@ def make(n: int) -> Item:
 
 COUNT: int = 3
 '''
-M1 = '''from c04pool.m0 import Item, make, COUNT, Box, IntBox
+M1 = '''from c04pool.m0 import Item, make, COUNT, Box, IntBox, Named
 
 def run_box1() -> None:
 	b = Box[int](1)
 	b.each(lambda e: print(e))
+
+def read_named(n: Named) -> int:
+	# (two different type arguments reach the base class through the inherit list only)
+	k = n.key
+	v = n.value
+	return v
 
 def read_box(b: IntBox) -> int:
 	# (a property declared with the type variable of the generic base class, read through the concrete subclass)
@@ -165,8 +186,8 @@ def mixed(n: int) -> int:
 MAIN_V = {
     # v0 and v1 have the same shape: a class, an operator expression and a constructor call sit on the same tree paths in
     # both, with other names and other types (what an interactive session sees when the next snippet is submitted)
-    'v0': 'from c04pool.m1 import make1\n\nclass Acc:\n\tdef twice(self, n: int) -> int:\n\t\treturn n + n\n\ndef run(n: int) -> int:\n\tx = make1(n)\n\tt = n + n\n\ta = Acc()\n\tu = a.twice(n)\n\treturn x.get()\n',
-    'v1': 'from c04pool.m0x import make, wide\n\nclass Ledger:\n\tdef twice(self, n: str) -> str:\n\t\treturn n + n\n\ndef run(n: str) -> str:\n\tx = make(n)\n\tt = n + n\n\ta = Ledger()\n\tu = a.twice(n)\n\tw = wide(1, \'a\', 1.5, True, 2, \'b\', 2.5, False, 3, \'c\', 4)\n\treturn x.get()\n',
+    'v0': 'from enum import Enum\nfrom c04pool.m1 import make1\n\nclass Lv(Enum):\n\tMax = 8\n\nclass Acc:\n\tdef twice(self, n: int) -> int:\n\t\treturn n + n\n\ndef run(n: int) -> int:\n\tx = make1(n)\n\tt = n + n\n\ta = Acc()\n\tu = a.twice(n)\n\tm = Lv.Max.value\n\treturn x.get()\n',
+    'v1': 'from enum import Enum\nfrom c04pool.m0x import make, wide\n\nclass Lv(Enum):\n\tMax = 8 + 40\n\nclass Ledger:\n\tdef twice(self, n: str) -> str:\n\t\treturn n + n\n\ndef run(n: str) -> str:\n\tx = make(n)\n\tt = n + n\n\ta = Ledger()\n\tu = a.twice(n)\n\tm = Lv.Max.value\n\tw = wide(1, \'a\', 1.5, True, 2, \'b\', 2.5, False, 3, \'c\', 4)\n\treturn x.get()\n',
     'bad': 'def run(n: int) -> int:\n\treturn (n +\n',
     # parses, fails while its symbols are collected (an annotation names an unknown type)
     'badtype': 'class Early:\n\tv: int\n\n\tdef __init__(self) -> None:\n\t\tself.v = 1\n\ndef run(n: Zz_unknown) -> int:\n\treturn 1\n',
